@@ -459,7 +459,7 @@ fn c12_next_factor_exact_ref_u8() {
     w8::next_factor_exact(2);
 }
 
-//@ prop=C12 tier=thorough kind=hold
+//@ prop=C12 tier=experimental kind=hold
 //@ enc=UpdateFundingState::next_funding_factor_per_second, FundingFeeParams::change, Unsigned::bound_magnitude, utils::{apply_exponent_factor,div_to_factor,apply_factor}
 //@ bound=width-reduced T=u16, DECIMALS=2: every u16/i16 value, u64 duration; exponent in {0,1,2}*UNIT (unwind 4); compared with the exact reference incl. the failure condition
 //@ stubs=market environment = plain-struct VMarket
@@ -509,7 +509,7 @@ fn c12_pending_funding_fees_exact_u16() {
     w16::pending_funding_fees(Some(10));
 }
 
-//@ prop=C12 tier=thorough kind=hold
+//@ prop=C12 tier=experimental kind=hold
 //@ enc=PositionExt::pending_funding_fees, unpack_to_funding_amount_delta
 //@ bound=width-reduced T=u16, DECIMALS=2: every u16 market index, position index, size and adjustment
 //@ stubs=market/position environment = plain-struct VMarket/VPosition
